@@ -91,6 +91,20 @@ impl LineIndex {
         }
     }
 
+    // end offset of the line content, excluding the line terminator
+    fn get_line_content_end(&self, line: usize, source_text: &str) -> usize {
+        let bytes = source_text.as_bytes();
+        let start = self.line_offsets[line] as usize;
+        let mut end = match self.line_offsets.get(line + 1) {
+            Some(next_start) => (*next_start as usize).saturating_sub(1),
+            None => bytes.len(),
+        };
+        if end > start && end < bytes.len() && bytes[end] == b'\n' && bytes[end - 1] == b'\r' {
+            end -= 1;
+        }
+        end.max(start).min(bytes.len())
+    }
+
     // get offset by line and col
     pub fn get_offset(&self, line: usize, col: usize, source_text: &str) -> Option<TextSize> {
         let start_offset = self.get_line_offset(line)?;
@@ -98,13 +112,16 @@ impl LineIndex {
             return Some(start_offset);
         }
 
+        let start = usize::from(start_offset);
+        let end = self.get_line_content_end(line, source_text);
         if self.is_line_only_ascii_index(line) {
-            let col = col.min(source_text.len());
+            // a character past the end of the line clamps to the end of the line
+            let col = col.min(end - start);
             Some(start_offset + TextSize::from(col as u32))
         } else {
             let mut offset = 0;
             let mut col = col;
-            for c in source_text[usize::from(start_offset)..].chars() {
+            for c in source_text[start..end].chars() {
                 if col == 0 {
                     break;
                 }
@@ -123,25 +140,7 @@ impl LineIndex {
         source_text: &str,
     ) -> Option<TextSize> {
         let start_offset = self.get_line_offset(line)?;
-        if col == 0 {
-            return Some(0.into());
-        }
-
-        if self.is_line_only_ascii_index(line) {
-            let col = col.min(source_text.len());
-            Some(TextSize::from(col as u32))
-        } else {
-            let mut offset = 0;
-            let mut col = col;
-            for c in source_text[usize::from(start_offset)..].chars() {
-                if col == 0 {
-                    break;
-                }
-
-                offset += c.len_utf8();
-                col -= 1;
-            }
-            Some(TextSize::from(offset as u32))
-        }
+        let offset = self.get_offset(line, col, source_text)?;
+        Some(offset - start_offset)
     }
 }
